@@ -204,7 +204,7 @@ class ProbedHost(utmi.UTMIHost):
 class DeviceRig:
     """One elaboration of USBDevice + endpoint serves many scenarios (sim.reset() in between)."""
 
-    def __init__(self, make_endpoint, make_others=None):
+    def __init__(self, make_endpoint, make_others=None, extra_clocks=None):
         use_repo()
         from amaranth.sim import Simulator
         from luna.gateware.usb.usb2.device import USBDevice
@@ -217,6 +217,8 @@ class DeviceRig:
             self.dev.add_endpoint(o)
         self.sim = Simulator(self.dev)
         self.sim.add_clock(1 / 12e6, domain="usb")
+        for dom, period in (extra_clocks or {}).items():
+            self.sim.add_clock(period, domain=dom, if_exists=True)
         self.sim.add_testbench(self._bench)
         self._first = True
         self._scenario = None
@@ -990,10 +992,14 @@ def check_C16(rep):
 # C17 — status (signal) IN
 # ==========================================================================================================
 
-def make_signal_rig(width, big, ep_num):
+SYNC_CYCLES = 3      # look-back of the sampling window for a signal from another clock domain (2-flop synchroniser + 1)
+
+
+def make_signal_rig(width, big, ep_num, domain="usb", domain_period=1 / 12e6):
     def mk():
         from luna.gateware.usb.usb2.endpoints.status import USBSignalInEndpoint
-        return USBSignalInEndpoint(width=width, endpoint_number=ep_num, endianness="big" if big else "little")
+        return USBSignalInEndpoint(width=width, endpoint_number=ep_num, endianness="big" if big else "little",
+                                   signal_domain=domain)
     other_ep = ep_num % 15 + 1
 
     def mk_others():
@@ -1001,9 +1007,18 @@ def make_signal_rig(width, big, ep_num):
         # bus traffic the status endpoint must ignore
         from luna.gateware.usb.usb2.endpoints.stream import USBStreamInEndpoint
         return [USBStreamInEndpoint(endpoint_number=other_ep, max_packet_size=8)]
-    rig = DeviceRig(mk, mk_others)
+    rig = DeviceRig(mk, mk_others, extra_clocks=None if domain == "usb" else {domain: domain_period})
     rig.ep_num, rig.width, rig.big, rig.other_ep = ep_num, width, big, other_ep
+    rig.domain = domain
+    rig.sync_cycles = 0 if domain == "usb" else SYNC_CYCLES
+    rig.cfg = {"width": width, "bigEndian": bool(big), "epNum": ep_num, "devAddr": 0, "signalDomain": domain,
+               "syncCycles": rig.sync_cycles}
     return rig
+
+
+def limbs(v, width):
+    """integer -> 16-bit limbs, least significant first (what SignalIn.tla calls a value of the signal)"""
+    return [(v >> (16 * i)) & 0xFFFF for i in range((width + 15) // 16)]
 
 
 def signal_scenario(ops, rng):
@@ -1022,7 +1037,7 @@ def signal_scenario(ops, rng):
     async def run(ctx, host, rig):
         ep = rig.ep
         width = rig.width
-        st = {"win_open": False, "win": [], "p": 0.0, "racy": False, "own": False, "ob": 1}
+        st = {"win_open": False, "win": [], "p": 0.0, "racy": False, "own": False, "ob": 1, "hist": []}
         other = rig.others[0]
 
         def pre(ctx, host):
@@ -1041,6 +1056,8 @@ def signal_scenario(ops, rng):
                 st["ob"] = st["ob"] % 255 + 1
             if ctx.get(ep.interface.tx.valid):
                 st["own"] = True
+            if rig.sync_cycles:                          # values of the last sync_cycles cycles (foreign clock domain)
+                st["hist"] = (st["hist"] + [ctx.get(ep.signal)])[-rig.sync_cycles:]
             if st["win_open"]:
                 if ctx.get(rig.dev.utmi.tx_valid):
                     st["win_open"] = False
@@ -1082,7 +1099,12 @@ def signal_scenario(ops, rng):
                         tok = (tok[0], tok[1], rig.other_ep)
                     busy = extras.get("busy", 0.0)
                 st["own"] = False
-                st["win"] = [ctx.get(ep.signal)]
+                if rig.sync_cycles and not racy and not extras.get("no_settle"):
+                    await host.idle(ctx, rig.sync_cycles)     # clean stimuli: the signal is stable around the request
+                st["win"] = []
+                for v in st["hist"] + [ctx.get(ep.signal)]:
+                    if not st["win"] or st["win"][-1] != v:
+                        st["win"].append(v)
                 st["racy"] = racy
                 st["win_open"] = True
                 st["p"] = busy
@@ -1095,7 +1117,7 @@ def signal_scenario(ops, rng):
                     await host.data(ctx, "DATA0", [rng.randrange(256) for _ in range(8 if tok[0] == "SETUP" else rng.randint(0, 4))])
                 resp = await host.response(ctx, timeout=12)
                 st["win_open"] = False
-                rec = {"e": "tok", "pid": tok[0], "addr": tok[1], "ep": tok[2], "win": list(st["win"]), "ack": False,
+                rec = {"e": "tok", "pid": tok[0], "addr": tok[1], "ep": tok[2], "win": [limbs(v, width) for v in st["win"]], "ack": False,
                        "hd": hd, "resp": resp}
                 same_dev_foreign = (k == "tok" and tok[1] == 0)
                 if ack and (resp["kind"] == "data" if (k == "poll" or same_dev_foreign) else True):
@@ -1149,17 +1171,17 @@ def signal_sweep_traces(width):
     cycles after an unacknowledged answer (the signal having changed in between); a PHY stall of one / two cycles
     at every offset 0..15 after the token.  Returns [(ops, origin)]."""
     top = (1 << width) - 1
-    a, b = 0x5A3C96 & top, 0xA5C369 & top
+    a, b = 0x965A3CC3A55A3C96 & top, 0x69A5C33C5AA5C369 & top
     if a == b:
         b = a ^ 1
     out = []
     ops = []
-    for d in range(-3, 26):
+    for d in range(-8, 26):
         x, y = (a, b) if d % 2 else (b, a)
-        if d < 0:
-            ops += [("sig", x), ("idle", 6), ("sig", y), ("idle", -d), ("poll", True, False, 0.0)]
+        if d < 0:      # the signal changes -d cycles before the request (inside / outside a synchroniser's look-back)
+            ops += [("sig", x), ("idle", 6), ("sig", y), ("idle", -d), ("poll", True, False, 0.0, {"no_settle": True})]
         else:
-            ops += [("sig", x), ("idle", 6), ("poll", True, False, 0.0, {"sig_at": [(d, y)]})]
+            ops += [("sig", x), ("idle", 6), ("poll", True, False, 0.0, {"sig_at": [(d, y)], "no_settle": True})]
         ops += [("idle", 3), ("poll", d % 3 != 0, False, 0.0), ("poll", True, False, 0.0)]
     out.append((ops, "sweep/signal-change-offset"))
     ops = []
@@ -1201,7 +1223,7 @@ def signal_ops_from_behaviour(beh):
     for _, st in beh[1:]:
         ev = st["ev"]
         if ev["e"] == "sig":
-            ops.append(("sig", ev["v"]))
+            ops.append(("sig", sum(x << (16 * i) for i, x in enumerate(ev["v"]))))
         elif ev["e"] == "sof":
             ops.append(("sof",))
         elif ev["e"] == "tok":
@@ -1244,10 +1266,10 @@ def check_C17(rep):
     items = []
     sampled = set()
 
-    def run(width, big, epn, ops, origin, cls, kw):
-        key = (width, big, epn)
+    def run(width, big, epn, ops, origin, cls, kw, domain="usb", period=1 / 12e6):
+        key = (width, big, epn, domain, period)
         if key not in rigs:
-            rigs[key] = make_signal_rig(width, big, epn)
+            rigs[key] = make_signal_rig(width, big, epn, domain, period)
         rig = rigs[key]
         c0 = rig.cycles
         steps = rig.run(signal_scenario(ops, _random.Random(rep.rng.random())), _random.Random(rep.rng.random()), **kw)
@@ -1255,31 +1277,42 @@ def check_C17(rep):
         pend = False
         for r in steps:
             if r["e"] == "tok" and (r["pid"], r["addr"], r["ep"]) == ("IN", 0, epn) and r["resp"].get("kind") == "data":
-                rep.nontriv((width, big, "retry" if pend else "fresh", r["resp"]["pid"], r["ack"], len(r["win"]) > 1,
+                rep.nontriv((width, big, domain, "retry" if pend else "fresh", r["resp"]["pid"], r["ack"], len(r["win"]) > 1,
                              kw.get("stall_prob", 0) > 0))
                 pend = not r["ack"]
-        trace = {"cfg": {"width": width, "bigEndian": bool(big), "epNum": epn, "devAddr": 0}, "steps": steps}
-        items.append((trace, {"dut": "USBSignalInEndpoint", "width": width, "endianness": "big" if big else "little",
-                              "endpoint": epn, "origin": origin, "class": cls, "host": kw}))
-        if (width, big) not in sampled:
-            sampled.add((width, big))
-            rep.sample({"width": width, "endianness": "big" if big else "little", "origin": origin, "first_events": steps[:3]})
+        items.append(({"cfg": dict(rig.cfg), "steps": steps},
+                      {"dut": "USBSignalInEndpoint", "width": width, "endianness": "big" if big else "little",
+                       "signal_domain": domain, "endpoint": epn, "origin": origin, "class": cls, "host": kw}))
+        if (width, big, domain) not in sampled:
+            sampled.add((width, big, domain))
+            rep.sample({"width": width, "endianness": "big" if big else "little", "signal_domain": domain,
+                        "origin": origin, "first_events": steps[:2]})
 
     # TLC's Env contains the foreign acknowledged transaction at any point: the kf tag classifies those traces
     for i, beh in enumerate(results[-1]):
         conf, ops = signal_ops_from_behaviour(beh)
         run(conf["width"], conf["bigEndian"], conf["epNum"], ops, "tlc-simulate", "simulated", {"stall_prob": [0.0, 0.3][i % 2]})
-    cfgs = [(w, big, 1 if (w, big) in ((9, True), (24, False)) else 1 + (w % 15)) for w in (1, 8, 9, 16, 24) for big in (False, True)]
-    if not quick:
-        cfgs += [(5, True, 3), (12, False, 4), (17, True, 6), (30, False, 2)]
-    for width, big, epn in cfgs:
-        for i in range(4 if quick else 30):
+    # DUT configurations: signal_domain x width x endianness.  A foreign domain gets its own clock in the simulation
+    # (same frequency as "usb", and a different one); the signal itself is driven by the test bench.
+    widths = (1, 8, 9, 12, 16, 24, 32, 40, 64)
+    if quick:       # every width in both domains, endianness alternating so that each (width, endianness) occurs once per pair
+        cfgs = [(w, bool(k % 2), "usb", 1 / 12e6) for k, w in enumerate(widths)] + \
+               [(w, not bool(k % 2), "sync", [1 / 12e6, 1 / 19e6][k % 2]) for k, w in enumerate(widths)]
+    else:
+        cfgs = [(w, big, dom, per) for w in widths + (5, 17, 30) for big in (False, True)
+                for dom, per in (("usb", 1 / 12e6), ("sync", 1 / 12e6), ("fast", 1 / 31e6))]
+    ep_of = lambda w, big: 1 if (w, big) in ((9, True), (24, False)) else 1 + (w % 15)
+    for width, big, dom, per in cfgs:
+        epn = ep_of(width, big)
+        for i in range(2 if quick else 12):
             kw = {"stall_prob": [0.0, 0.3][i % 2], "gap_prob": [0.0, 0.0, 0.3][i % 3]}
-            run(width, big, epn, signal_random_ops(rep.rng, 12 if quick else 25, epn, clean=True), "random-clean", "clean", kw)
-    for width, big in ([(16, True), (9, False)] if quick else [(16, True), (9, False), (24, True), (1, False), (8, True)]):
-        epn = [c[2] for c in cfgs if (c[0], c[1]) == (width, big)][0]
+            run(width, big, epn, signal_random_ops(rep.rng, 12 if quick else 25, epn, clean=True), "random-clean", "clean", kw, dom, per)
+    sweeps = [(16, True, "usb", 1 / 12e6), (9, False, "usb", 1 / 12e6), (40, True, "sync", 1 / 12e6)] if quick else \
+        [(16, True, "usb", 1 / 12e6), (9, False, "usb", 1 / 12e6), (40, True, "sync", 1 / 12e6), (12, False, "sync", 1 / 19e6),
+         (64, False, "usb", 1 / 12e6), (1, False, "usb", 1 / 12e6), (24, True, "fast", 1 / 31e6)]
+    for width, big, dom, per in sweeps:
         for ops, origin in signal_sweep_traces(width):
-            run(width, big, epn, ops, origin, "clean", {})
+            run(width, big, ep_of(width, big), ops, origin, "clean", {}, dom, per)
     for width, big, epn in ([(9, True, 1), (24, False, 1)] if quick else [(9, True, 1), (24, False, 1), (1, False, 2), (16, True, 2)]):
         for i in range(3 if quick else 10):
             run(width, big, epn, signal_random_ops(rep.rng, 12, epn, clean=False), "random-foreign-ack", "witness", {})
